@@ -72,7 +72,11 @@ def main() -> None:
         elif arg in ['--no-rimurc']:
             no_rimurc = True
         elif arg in ['--safe-mode', '--safeMode']:  # --safeMode deprecated in Rimu 7.1.0
-            safe_mode = int(popArg(arg))
+            value = popArg(arg)
+            try:
+                safe_mode = int(value)
+            except ValueError:
+                die(f'illegal --safe-mode option value: {value}')
             if safe_mode < 0 or safe_mode > 15:
                 die(f'illegal --safe-mode option value: {safe_mode}')
         elif arg in ['--html-replacement', '--htmlReplacement']:  # --htmlReplacement deprecated in Rimu 7.1.0
